@@ -180,10 +180,201 @@ Proof.
     destruct (String.eqb (az_challenge a) "" && String.eqb (az_method a) ""); cbn; rewrite Ho2, Hk; apply upd_eq.
 Qed.
 
+Lemma store_implicit_spec cfg s cl a rid exp_code :
+  let res := store_implicit cfg s cl a rid exp_code in
+  snd res = next_key s /\
+  codes (st (fst res)) = codes (st s) /\ access (st (fst res)) = access (st s) /\ refresh (st (fst res)) = refresh (st s) /\
+  rt_idx (st (fst res)) = rt_idx (st s) /\ device (st (fst res)) = device (st s) /\ pkce (st (fst res)) = pkce (st s) /\
+  par (st (fst res)) = par (st s) /\
+  next_rid (fst res) = next_rid s /\ next_key (fst res) = S (next_key s) /\
+  owner (fst res) = upd (owner s) (next_key s) (Some (KImplicit, rid)) /\
+  log (fst res) = log s /\
+  (forall k, k <> next_key s -> implicit (st (fst res)) k = implicit (st s) k).
+Proof.
+  unfold store_implicit. destruct (mint s KImplicit rid) as [ka s1] eqn:E1.
+  destruct (mint_spec _ _ _ _ _ E1) as [Hka [_ [Hst [Hnr [Hnk [Ho Hl]]]]]].
+  cbn. rewrite Hst, Hl. repeat split; try assumption.
+  intros k Hk. rewrite upd_neq by congruence. reflexivity.
+Qed.
+
+Lemma Inv_store_implicit cfg s cl a rid exp_code :
+  Inv s -> rid < next_rid s -> no_access_rid (st s) rid -> Inv (fst (store_implicit cfg s cl a rid exp_code)).
+Proof.
+  intros I Hrid Hna. unfold store_implicit. destruct (mint s KImplicit rid) as [ka s1] eqn:E1.
+  destruct (mint_spec _ _ _ _ _ E1) as [Hka [Hs1 [Hst [Hnr [Hnk [Ho Hl]]]]]].
+  assert (I1 : Inv s1) by (rewrite Hs1; apply Inv_mint; assumption).
+  cbn [fst]. apply Inv_create_implicit; [assumption| |].
+  - cbn. rewrite Ho, Hka. apply upd_eq.
+  - cbn. rewrite Hst. assumption.
+Qed.
+
+Lemma issue_implicit_spec cfg s cl a rid exp_code :
+  let res := issue_implicit cfg s cl a rid exp_code in
+  codes (st (fst res)) = codes (st s) /\ access (st (fst res)) = access (st s) /\ refresh (st (fst res)) = refresh (st s) /\
+  rt_idx (st (fst res)) = rt_idx (st s) /\ device (st (fst res)) = device (st s) /\ pkce (st (fst res)) = pkce (st s) /\
+  par (st (fst res)) = par (st s) /\
+  next_rid (fst res) = next_rid s /\ next_key (fst res) = S (next_key s) /\
+  owner (fst res) = upd (owner s) (next_key s) (Some (KImplicit, rid)) /\
+  (exists e, log (fst res) = (log s ++ [e])%list /\ i_key e = next_key s /\ i_kind e = KImplicit /\ i_rid e = rid) /\
+  (forall k, k <> next_key s -> implicit (st (fst res)) k = implicit (st s) k).
+Proof.
+  pose proof (store_implicit_spec cfg s cl a rid exp_code) as SP. unfold issue_implicit.
+  destruct (store_implicit cfg s cl a rid exp_code) as [s2 ka]. cbn [fst snd] in *.
+  destruct SP as [Hka [Hc [Ha [Hr [Hri [Hd [Hp [Hpar [Hnr [Hnk [Ho [Hl Him]]]]]]]]]]]].
+  cbn. rewrite Hl. repeat split; try assumption.
+  eexists. split; [reflexivity|]. cbn. auto.
+Qed.
+
+Lemma Inv_issue_implicit cfg s cl a rid exp_code :
+  Inv s -> rid < next_rid s -> no_access_rid (st s) rid -> Inv (fst (issue_implicit cfg s cl a rid exp_code)).
+Proof.
+  intros I Hrid Hna.
+  pose proof (store_implicit_spec cfg s cl a rid exp_code) as SP.
+  pose proof (Inv_store_implicit cfg s cl a rid exp_code I Hrid Hna) as I2. unfold issue_implicit.
+  destruct (store_implicit cfg s cl a rid exp_code) as [s2 ka]. cbn [fst snd] in *.
+  destruct SP as [Hka [_ [_ [_ [_ [_ [_ [_ [_ [_ [Ho _]]]]]]]]]]].
+  apply Inv_log_add; [assumption|].
+  intros e [<-|[]]. cbn. rewrite Ho, Hka. apply upd_eq.
+Qed.
+
+Lemma Inv_authorize_implicit cfg s cl a : Inv s -> Inv (fst (authorize_implicit cfg s cl a)).
+Proof.
+  intros I. unfold authorize_implicit.
+  repeat match goal with |- context [if ?c then fail s _ else _] => destruct c; [assumption|] end.
+  destruct (fresh_rid s) as [rid s1] eqn:E1.
+  destruct (fresh_rid_spec _ _ _ E1) as [Hrid [Hs1 [Hst1 [Hnr1 _]]]].
+  assert (I1 : Inv s1) by (rewrite Hs1; apply Inv_fresh_rid; assumption).
+  pose proof (Inv_issue_implicit cfg s1 cl a rid None I1) as G.
+  destruct (issue_implicit cfg s1 cl a rid None) as [s2 ein]. cbn [fst] in *. apply G; [lia|].
+  rewrite Hst1. intros k r H. destruct (inv_access_fresh s _ _ I H). lia.
+Qed.
+
+Lemma Inv_authorize_hybrid cfg s cl a : Inv s -> Inv (fst (authorize_hybrid cfg s cl a)).
+Proof.
+  intros I. unfold authorize_hybrid.
+  repeat match goal with |- context [if ?c then fail s _ else _] => destruct c; [assumption|] end.
+  destruct (fresh_rid s) as [rid s1] eqn:E1.
+  destruct (fresh_rid_spec _ _ _ E1) as [Hrid [Hs1 [Hst1 [Hnr1 [Hnk1 [Ho1 Hl1]]]]]].
+  destruct (mint s1 KCode rid) as [k s2] eqn:E2.
+  destruct (mint_spec _ _ _ _ _ E2) as [Hk [Hs2 [Hst2 [Hnr2 [Hnk2 [Ho2 Hl2]]]]]].
+  assert (I1 : Inv s1) by (rewrite Hs1; apply Inv_fresh_rid; assumption).
+  assert (I2 : Inv s2) by (rewrite Hs2; apply Inv_mint; [assumption|lia]).
+  match goal with |- context [create_code _ k ?r] => set (rec := r) end.
+  assert (I3 : Inv (set_store s2 (create_code (st s2) k rec))).
+  { apply Inv_create_code; [assumption| | | | | |].
+    - rewrite Ho2, Hk. apply upd_eq.
+    - rewrite Hst2, Hst1. destruct (codes (st s) k) as [[b r]|] eqn:E; [|reflexivity].
+      destruct (inv_code_fresh s _ _ _ I E). lia.
+    - rewrite Hst2, Hst1. cbn. intros k' b' r' H. destruct (inv_code_fresh s _ _ _ I H). lia.
+    - rewrite Hst2, Hst1. cbn. intros k' r' H. destruct (inv_access_fresh s _ _ I H). lia.
+    - rewrite Hst2, Hst1. cbn. intros k' b' r' H. destruct (inv_refresh_fresh s _ _ _ I H). lia.
+    - rewrite Hst2, Hst1. cbn. intros k' b' r' H. destruct (inv_owner_fresh s I _ _ _ (inv_owner_device s I _ _ _ H)). lia. }
+  destruct (negb (args_has (cl_grants cl) ["implicit"])); [exact I3|].
+  destruct (pkce_validate cfg (az_challenge a) (az_method a) cl).
+  { cbn [fst]. apply Inv_store_implicit; [assumption|cbn; lia|].
+    cbn. rewrite Hst2, Hst1. intros k' r' H. destruct (inv_access_fresh s _ _ I H). lia. }
+  match goal with |- context [issue_implicit cfg ?s3 cl a rid ?ec] =>
+    pose proof (Inv_issue_implicit cfg s3 cl a rid ec I3) as G; pose proof (issue_implicit_spec cfg s3 cl a rid ec) as SP;
+    destruct (issue_implicit cfg s3 cl a rid ec) as [s4 ein] end.
+  cbn [fst] in *.
+  assert (I4 : Inv s4).
+  { apply G; [cbn; lia|]. cbn. rewrite Hst2, Hst1. intros k' r' H. destruct (inv_access_fresh s _ _ I H). lia. }
+  destruct SP as [_ [_ [_ [_ [_ [_ [_ [_ [Hnk4 [Ho4 _]]]]]]]]]].
+  cbn [fst]. apply Inv_log_add.
+  - destruct (String.eqb (az_challenge a) "" && String.eqb (az_method a) ""); [assumption|].
+    apply (Inv_set_pkce _ _ I4).
+  - intros e [<-|[]]. cbn.
+    assert (Hok : owner s4 k = Some (KCode, rid)).
+    { rewrite Ho4. cbn. rewrite upd_neq by lia. rewrite Ho2, Hk. apply upd_eq. }
+    destruct (String.eqb (az_challenge a) "" && String.eqb (az_method a) ""); cbn; exact Hok.
+Qed.
+
+(* what an authorization with response_type "token" / "code token" can change *)
+Definition authz_effect (s s' : state) : Prop :=
+  access (st s') = access (st s) /\ refresh (st s') = refresh (st s) /\ device (st s') = device (st s) /\
+  par (st s') = par (st s) /\ rt_idx (st s') = rt_idx (st s) /\
+  next_rid s <= next_rid s' /\ next_key s <= next_key s' /\ (exists l, log s' = (log s ++ l)%list) /\
+  (forall k, k < next_key s -> codes (st s') k = codes (st s) k /\ pkce (st s') k = pkce (st s) k /\ implicit (st s') k = implicit (st s) k) /\
+  (forall k b r, codes (st s') k = Some (b, r) -> codes (st s) k = Some (b, r) \/ r_id r = next_rid s).
+
+Lemma authz_effect_refl s : authz_effect s s.
+Proof. unfold authz_effect. repeat split; auto. exists []. now rewrite app_nil_r. Qed.
+
+Lemma authorize_implicit_effect cfg s cl a : authz_effect s (fst (authorize_implicit cfg s cl a)).
+Proof.
+  unfold authorize_implicit.
+  repeat match goal with |- context [if ?c then fail s _ else _] => destruct c; [apply authz_effect_refl|] end.
+  destruct (fresh_rid s) as [rid s1] eqn:E1.
+  destruct (fresh_rid_spec _ _ _ E1) as [Hrid [_ [Hst1 [Hnr1 [Hnk1 [_ Hl1]]]]]].
+  pose proof (issue_implicit_spec cfg s1 cl a rid None) as SP.
+  destruct (issue_implicit cfg s1 cl a rid None) as [s2 ein]. cbn [fst] in *.
+  destruct SP as [Hc [Ha [Hr [Hri [Hd [Hp [Hpar [Hnr [Hnk [_ [[e [Hl _]] Him]]]]]]]]]]].
+  unfold authz_effect. rewrite Hc, Ha, Hr, Hri, Hd, Hpar, Hl, Hst1, Hl1, Hnr, Hnk.
+  repeat split; try lia; eauto.
+  - rewrite Hp, Hst1. reflexivity.
+  - rewrite Him by lia. now rewrite Hst1.
+Qed.
+
+Lemma authorize_hybrid_effect cfg s cl a : authz_effect s (fst (authorize_hybrid cfg s cl a)).
+Proof.
+  unfold authorize_hybrid.
+  repeat match goal with |- context [if ?c then fail s _ else _] => destruct c; [apply authz_effect_refl|] end.
+  destruct (fresh_rid s) as [rid s1] eqn:E1.
+  destruct (fresh_rid_spec _ _ _ E1) as [Hrid [_ [Hst1 [Hnr1 [Hnk1 [_ Hl1]]]]]].
+  destruct (mint s1 KCode rid) as [k s2] eqn:E2.
+  destruct (mint_spec _ _ _ _ _ E2) as [Hk [_ [Hst2 [Hnr2 [Hnk2 [_ Hl2]]]]]].
+  match goal with |- context [create_code _ k ?r] => set (rec := r) end.
+  assert (Hrec : r_id rec = rid) by reflexivity.
+  assert (E3 : authz_effect s (set_store s2 (create_code (st s2) k rec))).
+  { unfold authz_effect. cbn. rewrite Hst2, Hst1, Hl2, Hl1, Hnr2, Hnr1, Hnk2, Hnk1.
+    repeat split; try lia; auto.
+    - exists []. now rewrite app_nil_r.
+    - rewrite upd_neq by lia. reflexivity.
+    - intros k0 b r H. upd_case k0 k; [injection H as <- <-; right; congruence|auto]. }
+  destruct (negb (args_has (cl_grants cl) ["implicit"])); [exact E3|].
+  destruct (pkce_validate cfg (az_challenge a) (az_method a) cl).
+  { unfold fail. cbn [fst].
+    match goal with |- context [store_implicit cfg ?s3 cl a rid ?ec] =>
+      pose proof (store_implicit_spec cfg s3 cl a rid ec) as SP; destruct (store_implicit cfg s3 cl a rid ec) as [s4 ka] end.
+    cbn [fst snd] in *.
+    destruct SP as [_ [Hc [Ha [Hr [Hri [Hd [Hp [Hpar [Hnr [Hnk [_ [Hl Him]]]]]]]]]]]].
+    destruct E3 as [A3 [R3 [D3 [P3 [RI3 [N3 [K3 [[l3 L3] [O3 C3]]]]]]]]].
+    unfold authz_effect. rewrite Ha, Hr, Hd, Hpar, Hri, Hnr, Hnk, Hl, L3. cbn [st set_store next_key next_rid] in *.
+    repeat split; try assumption; try lia.
+    - exists l3. reflexivity.
+    - rewrite Hc. apply O3. assumption.
+    - rewrite Hp. apply O3. assumption.
+    - rewrite Him by (cbn; lia). apply O3. assumption.
+    - intros k0 b r H. rewrite Hc in H. auto. }
+  match goal with |- context [issue_implicit cfg ?s3 cl a rid ?ec] =>
+    pose proof (issue_implicit_spec cfg s3 cl a rid ec) as SP; destruct (issue_implicit cfg s3 cl a rid ec) as [s4 ein] end.
+  cbn [fst] in *.
+  destruct SP as [Hc [Ha [Hr [Hri [Hd [Hp [Hpar [Hnr [Hnk [_ [[e [Hl _]] Him]]]]]]]]]]].
+  assert (E4 : authz_effect s s4).
+  { destruct E3 as [A3 [R3 [D3 [P3 [RI3 [N3 [K3 [[l3 L3] [O3 C3]]]]]]]]].
+    unfold authz_effect. rewrite Ha, Hr, Hd, Hpar, Hri, Hnr, Hnk, Hl, L3. cbn [st set_store next_key next_rid] in *.
+    repeat split; try assumption; try lia.
+    - exists (l3 ++ [e])%list. now rewrite app_assoc.
+    - rewrite Hc. apply O3. assumption.
+    - rewrite Hp. apply O3. assumption.
+    - rewrite Him by (cbn; lia). apply O3. assumption.
+    - intros k0 b r H. rewrite Hc in H. auto. }
+  cbn [fst].
+  destruct E4 as [A4 [R4 [D4 [P4 [RI4 [N4 [K4 [[l4 L4] [O4 C4]]]]]]]]].
+  assert (Hk4 : next_key s < next_key s4 /\ k = next_key s) by (cbn in *; split; lia).
+  unfold authz_effect.
+  destruct (String.eqb (az_challenge a) "" && String.eqb (az_method a) ""); cbn; rewrite ?L4;
+    (repeat split; try assumption; try lia;
+     [exists (l4 ++ [{| i_kind := KCode; i_key := k; i_rid := rid; i_endpoint_token := false |}])%list; now rewrite app_assoc| ..]).
+  - apply O4. assumption. - apply O4. assumption. - apply O4. assumption.
+  - apply O4. assumption. - rewrite upd_neq by lia. apply O4. assumption. - apply O4. assumption.
+Qed.
+
 Lemma Inv_authorize cfg s a : Inv s -> Inv (fst (authorize cfg s a)).
 Proof.
   intros I. unfold authorize. destruct (cf_par_enforced cfg); [assumption|].
-  destruct (clients s (az_client a)) as [cl|]; [|assumption]. now apply Inv_authorize_core.
+  destruct (clients s (az_client a)) as [cl|]; [|assumption].
+  destruct (az_rtype a); [now apply Inv_authorize_core|now apply Inv_authorize_implicit|now apply Inv_authorize_hybrid].
 Qed.
 
 Lemma Inv_authorize_par cfg s cp uri a : Inv s -> Inv (fst (authorize_par cfg s cp uri a)).
